@@ -144,7 +144,12 @@ func (r *ring) removeHost(hostID string) bool {
 				break
 			}
 		}
-		delete(r.hostIPToUUID, h.nodeToNodeAddress().String())
+		// only drop the address entry if it still refers to the removed host: another
+		// host (a replacement with a new host_id) may have taken over the address
+		ip := h.nodeToNodeAddress().String()
+		if r.hostIPToUUID[ip] == hostID {
+			delete(r.hostIPToUUID, ip)
+		}
 	}
 	delete(r.hosts, hostID)
 	r.mu.Unlock()
